@@ -477,6 +477,31 @@ func orLin[P curves.Point[P, F, S], F algebra.FieldElement[F], S algebra.PrimeFi
 					h.prop("sigma-or-split/"+id, cs, "OR verifier accepts shares that do not XOR to the challenge", "or_sound_split")
 				}
 			}
+			// an over-long share: E[0] || suffix with the same integer value modulo the group
+			// order (so the branch equation still holds) and the same first L bytes (so the XOR
+			// relation still holds): must be rejected for its length alone
+			if okm {
+				qb := vh.UnZHex(q)
+				e0 := new(big.Int).SetBytes(z.E[0])
+				sfx := new(big.Int).Lsh(e0, 256)
+				sfx.Sub(e0, sfx).Mod(sfx, qb)
+				long := append(append([]byte{}, z.E[0]...), sfx.FillBytes(make([]byte, 32))...)
+				z2 := &sigor.Response[*schnorr.Response[S]]{E: append([][]byte{long}, z.E[1:]...), Z: z.Z}
+				var verr error
+				pan := vh.Safely(func() { verr = proto.Verify(x, a, e, z2) })
+				got3 := pan == "" && verr == nil
+				h.res.Count("sigma-or-overlong-share/"+id, cs, true)
+				var eh []string
+				for _, xx := range z2.E {
+					eh = append(eh, vh.Hex(xx))
+				}
+				mv := h.ask(fmt.Sprintf("OV %s %d %s %d %d %s %s %s %s %s", q, dim, phi, L, n, vh.Hex(e), vecsText(xvs), f[0], strings.Join(eh, "|"), f[2]))
+				if mv != b2i(got3) {
+					h.corr("sigor-overlong-share", cs+" e0="+vh.Hex(long), "model verdict "+mv+", implementation "+b2i(got3)+" on an over-long challenge share", got3, "Sigma.or_verify (or_overlong_share_rejected) vs sigor.Verify")
+				} else if got3 {
+					h.prop("sigor-overlong-share", cs+" e0="+vh.Hex(long), "OR verifier accepts an over-long challenge share", "or_overlong_share_rejected")
+				}
+			}
 			// simulator of the composition
 			as, zs, err := proto.RunSimulator(x, e)
 			h.res.Count("sigma-simulate/"+id, cs, true)
